@@ -242,3 +242,337 @@ example : iterate [⟨1, [⟨[116], [⟨0, .ok (5, [])⟩, ⟨1, .ok (5, [⟨3, 
   simp [iterate]
 
 end Kafka.Props.C01
+
+/-! ### whole histories: "delivered = the log between the start offset and the fetch offset"
+
+  The per-poll facts above are put together over arbitrary histories of polls and appends for one partition.
+  A log is a list of messages with strictly increasing offsets below its end offset `hw`; a poll's reply (after
+  decoding: C02) is any gap-free prefix of the messages at or above the asked offset — possibly empty, possibly cut
+  short; an append adds a message at or beyond the end offset.  `track` is the book-keeping `processPartition` performs
+  (`processPartition_offset` below); what is handed out is the reply itself when it is non-empty (`C01_iterate`). -/
+namespace Kafka.Props.C01
+open Kafka Kafka.Model
+
+/-- the fetch offset after a reply: one past the last message, unchanged when the reply is empty -/
+def nextOffset (o : Int) (ms : List Message) : Int :=
+  match ms.getLast? with
+  | some l => l.offset + 1
+  | none => o
+
+theorem assocGet_assocSet_self {α β} [DecidableEq α] (m : List (α × β)) (k : α) (v : β) : assocGet (assocSet m k v) k = some v := by
+  induction m with
+  | nil => simp [assocSet, assocGet]
+  | cons x r ih =>
+    obtain ⟨k', v'⟩ := x
+    simp only [assocSet]
+    by_cases h : k' = k
+    · simp [h, assocGet]
+    · simp only [h, if_false]
+      simp only [assocGet, List.find?_cons, h, decide_false] at ih ⊢
+      exact ih
+
+/-- **the model's book-keeping is `nextOffset`**: for a partition the consumer fetches, a successful `processPartition`
+    leaves its fetch offset at `nextOffset` of the old one (whatever happens to the fetch size and the retry queue) -/
+theorem processPartition_offset (normalMax : Int) (n : Nat) (single : Bool) (c c' : Consumer) (tr : Nat) (p : FetchPartition)
+    (hw : Int) (ms : List Message) (fs : FetchState) (got : Bool)
+    (hd : p.data = .ok (hw, ms)) (hf : assocGet c.fetchOffsets ⟨tr, p.partition⟩ = some fs)
+    (h : processPartition normalMax n single c tr p = (.ok c', got)) :
+    (assocGet c'.fetchOffsets ⟨tr, p.partition⟩).map (·.offset) = some (nextOffset fs.offset ms) := by
+  unfold processPartition at h
+  simp only [hd, hf] at h
+  unfold nextOffset
+  cases hl : ms.getLast? with
+  | some last =>
+    simp only [hl] at h
+    simp at h
+    obtain ⟨rfl, _⟩ := h
+    simp [assocGet_assocSet_self]
+  | none =>
+    simp only [hl] at h
+    split at h
+    · split at h
+      · simp at h
+        obtain ⟨rfl, _⟩ := h
+        split <;> simp [assocGet_assocSet_self]
+      · split at h
+        · simp at h
+        · simp at h
+          obtain ⟨rfl, _⟩ := h
+          split <;> simp [hf]
+    · simp at h
+      obtain ⟨rfl, _⟩ := h
+      simp [hf]
+
+/-- strictly increasing offsets, all below `hw` -/
+def LogOk (L : List Message) (hw : Int) : Prop :=
+  L.Pairwise (fun a b => a.offset < b.offset) ∧ ∀ m ∈ L, m.offset < hw
+
+/-- the messages of the log with offsets in `[a, b)` -/
+def between (L : List Message) (a b : Int) : List Message := L.filter fun m => decide (a ≤ m.offset) && decide (m.offset < b)
+
+/-- the messages at or above `o` -/
+def avail (L : List Message) (o : Int) : List Message := L.filter fun m => decide (o ≤ m.offset)
+
+theorem between_split (L : List Message) (a b c : Int) (hab : a ≤ b) (hbc : b ≤ c)
+    (hs : L.Pairwise (fun x y => x.offset < y.offset)) : between L a b ++ between L b c = between L a c := by
+  induction L with
+  | nil => rfl
+  | cons m r ih =>
+    have hs' := (List.pairwise_cons.mp hs).2
+    have hm := (List.pairwise_cons.mp hs).1
+    unfold between at ih ⊢
+    simp only [List.filter_cons]
+    by_cases h1 : m.offset < b
+    · -- `m` belongs to the first part, if anywhere
+      have hb : ¬ (b ≤ m.offset) := by omega
+      by_cases h0 : a ≤ m.offset
+      · have hc : m.offset < c := by omega
+        simp only [h0, h1, hb, hc, decide_true, decide_false, Bool.and_self, Bool.false_and, if_true]
+        simp only [Bool.false_eq_true, if_false, List.cons_append]
+        rw [ih hs']
+      · simp only [h0, hb, decide_false, Bool.false_and, Bool.false_eq_true, if_false]
+        exact ih hs'
+    · -- `m` and everything after it is at or above `b`: the first part of the rest is empty
+      have hr : r.filter (fun x => decide (a ≤ x.offset) && decide (x.offset < b)) = [] := by
+        rw [List.filter_eq_nil_iff]
+        intro x hx
+        have := hm x hx
+        simp
+        intro _
+        omega
+      have h0 : a ≤ m.offset := by omega
+      simp only [h1, decide_false, Bool.and_false, Bool.false_eq_true, if_false, hr, List.nil_append]
+      have hb : b ≤ m.offset := by omega
+      simp only [h0, hb, decide_true, Bool.true_and]
+      have := ih hs'
+      rw [hr, List.nil_append] at this
+      by_cases hc : m.offset < c
+      · simp only [hc, decide_true, if_true]; rw [this]
+      · simp only [hc, decide_false, Bool.false_eq_true, if_false]; exact this
+
+/-- a gap-free prefix of what is available from `o` is exactly the log between `o` and one past its last message -/
+theorem prefix_is_between (L : List Message) (o : Int) (ms : List Message) (hs : L.Pairwise (fun x y => x.offset < y.offset))
+    (hp : ms <+: avail L o) : ms = between L o (nextOffset o ms) := by
+  induction L generalizing ms o with
+  | nil =>
+    simp [avail] at hp
+    subst hp
+    rfl
+  | cons m r ih =>
+    have hs' := (List.pairwise_cons.mp hs).2
+    have hm := (List.pairwise_cons.mp hs).1
+    unfold avail at hp
+    simp only [List.filter_cons] at hp
+    by_cases h0 : o ≤ m.offset
+    · simp only [h0, decide_true, if_true] at hp
+      cases ms with
+      | nil =>
+        -- nothing delivered: the interval [o, o) is empty
+        unfold nextOffset between
+        simp only [List.getLast?_nil]
+        symm
+        rw [List.filter_eq_nil_iff]
+        intro y _
+        by_cases h : o ≤ y.offset
+        · have : ¬ y.offset < o := by omega
+          simp [h, this]
+        · simp [h]
+      | cons x xs =>
+        have hx : x = m := (List.cons_prefix_cons.mp hp).1
+        subst hx
+        have hxs : xs <+: avail r o := (List.cons_prefix_cons.mp hp).2
+        -- everything in `r` is above `x`, so available-from-o and available-from-(x+1) agree on `r`
+        have hav : avail r o = avail r (x.offset + 1) := by
+          unfold avail
+          apply List.filter_congr
+          intro y hy
+          have := hm y hy
+          simp
+          constructor <;> intro <;> omega
+        rw [hav] at hxs
+        have ihx := ih (x.offset + 1) xs hs' hxs
+        -- the last message of x :: xs
+        have hnext : nextOffset o (x :: xs) = nextOffset (x.offset + 1) xs := by
+          unfold nextOffset
+          cases xs with
+          | nil => simp
+          | cons y ys =>
+            simp only [List.getLast?_cons_cons]
+            cases hg : (y :: ys).getLast? with
+            | some l => rfl
+            | none => simp at hg
+        rw [hnext]
+        unfold between
+        simp only [List.filter_cons]
+        have hlt : x.offset < nextOffset (x.offset + 1) xs := by
+          unfold nextOffset
+          cases hl : xs.getLast? with
+          | none => simp only []; omega
+          | some l =>
+            simp only []
+            have hmem : l ∈ xs := List.mem_of_getLast? hl
+            have : l ∈ r := by
+              have := hxs.subset hmem
+              exact (List.mem_filter.mp this).1
+            have := hm l this
+            omega
+        simp only [h0, hlt, decide_true, Bool.and_self, if_true]
+        congr 1
+        refine ihx.trans ?_
+        unfold between
+        apply List.filter_congr
+        intro y hy
+        have := hm y hy
+        by_cases h1 : y.offset < nextOffset (x.offset + 1) xs
+        · have a1 : x.offset + 1 ≤ y.offset := by omega
+          have a2 : o ≤ y.offset := by omega
+          simp [h1, a1, a2]
+        · simp [h1]
+    · simp only [h0, decide_false, Bool.false_eq_true, if_false] at hp
+      refine (ih o ms hs' hp).trans ?_
+      unfold between
+      simp only [List.filter_cons, h0, decide_false, Bool.false_and, Bool.false_eq_true, if_false]
+
+/-- what happens to one partition: a poll with a conforming reply, or an append to the log -/
+inductive Ev
+  | poll (ms : List Message)
+  | append (m : Message) (hw' : Int)
+
+structure St where
+  log : List Message
+  hw : Int
+  /-- the consumer's fetch offset -/
+  o : Int
+  /-- everything handed to the application so far, in order -/
+  delivered : List Message
+
+/-- the event is possible in this state: replies are gap-free prefixes of what is available from the asked offset; appended
+    messages get offsets at or beyond the log end -/
+def Ev.ok (s : St) : Ev → Prop
+  | .poll ms => ms <+: avail s.log s.o
+  | .append m hw' => s.hw ≤ m.offset ∧ m.offset < hw'
+
+def step (s : St) : Ev → St
+  | .poll ms => { s with o := nextOffset s.o ms, delivered := s.delivered ++ ms }
+  | .append m hw' => { s with log := s.log ++ [m], hw := hw' }
+
+/-- all events of a history are possible, each in the state it meets -/
+def valid : St → List Ev → Prop
+  | _, [] => True
+  | s, e :: r => e.ok s ∧ valid (step s e) r
+
+theorem nextOffset_mono (L : List Message) (hw o : Int) (ms : List Message) (hl : LogOk L hw) (ho : o ≤ hw) (hp : ms <+: avail L o) :
+    o ≤ nextOffset o ms ∧ nextOffset o ms ≤ hw := by
+  unfold nextOffset
+  cases hg : ms.getLast? with
+  | none => exact ⟨Int.le_refl _, ho⟩
+  | some l =>
+    have hmem : l ∈ avail L o := hp.subset (List.mem_of_getLast? hg)
+    have h1 := (List.mem_filter.mp hmem)
+    have h2 := hl.2 l h1.1
+    simp at h1
+    simp only []
+    omega
+
+/-- **C01 over whole histories**: from a consumer positioned at `start` with nothing delivered yet, after *any* history of
+    polls (with any conforming replies: empty, cut short, or complete) and appends, what has been delivered is exactly the
+    log between the start offset and the current fetch offset — every message once, in log order, none skipped — and
+    the fetch offset never passes the log end -/
+theorem C01_history (start : Int) : ∀ (evs : List Ev) (s : St), LogOk s.log s.hw → start ≤ s.o → s.o ≤ s.hw →
+    s.delivered = between s.log start s.o → valid s evs →
+    let s' := evs.foldl step s
+    s'.delivered = between s'.log start s'.o ∧ LogOk s'.log s'.hw ∧ s'.o ≤ s'.hw ∧ s.o ≤ s'.o := by
+  intro evs
+  induction evs with
+  | nil => intro s hl hs ho hd _; exact ⟨hd, hl, ho, Int.le_refl _⟩
+  | cons e r ih =>
+    intro s hl hs ho hd hv
+    obtain ⟨hok, hv'⟩ := hv
+    simp only [List.foldl_cons]
+    cases e with
+    | poll ms =>
+      have hp : ms <+: avail s.log s.o := hok
+      obtain ⟨hm1, hm2⟩ := nextOffset_mono s.log s.hw s.o ms hl ho hp
+      have hstep : (step s (.poll ms)).delivered = between (step s (.poll ms)).log start (step s (.poll ms)).o := by
+        simp only [step]
+        rw [hd, prefix_is_between s.log s.o ms hl.1 hp]
+        rw [← prefix_is_between s.log s.o ms hl.1 hp]
+        rw [show between s.log start s.o ++ ms = between s.log start s.o ++ between s.log s.o (nextOffset s.o ms) from by
+          rw [← prefix_is_between s.log s.o ms hl.1 hp]]
+        exact between_split s.log start s.o _ hs hm1 hl.1
+      obtain ⟨h1, h2, h3, h4⟩ := ih (step s (.poll ms)) hl (by simp only [step]; omega) (by simp only [step]; exact hm2) hstep hv'
+      have h5 : s.o ≤ (step s (.poll ms)).o := hm1
+      exact ⟨h1, h2, h3, Int.le_trans h5 h4⟩
+    | append m hw' =>
+      obtain ⟨ha1, ha2⟩ := hok
+      have hl' : LogOk (s.log ++ [m]) hw' := by
+        constructor
+        · rw [List.pairwise_append]
+          refine ⟨hl.1, by simp, ?_⟩
+          intro a ha b hb
+          simp at hb
+          subst hb
+          have := hl.2 a ha
+          omega
+        · intro x hx
+          rcases List.mem_append.mp hx with hx | hx
+          · have := hl.2 x hx; omega
+          · simp at hx; subst hx; exact ha2
+      have hstep : (step s (.append m hw')).delivered = between (step s (.append m hw')).log start (step s (.append m hw')).o := by
+        simp only [step]
+        rw [hd]
+        unfold between
+        rw [List.filter_append]
+        have : [m].filter (fun x => decide (start ≤ x.offset) && decide (x.offset < s.o)) = [] := by
+          simp
+          intro _
+          omega
+        rw [this, List.append_nil]
+      obtain ⟨h1, h2, h3, h4⟩ := ih (step s (.append m hw')) hl' (by simp only [step]; exact hs) (by simp only [step]; omega) hstep hv'
+      exact ⟨h1, h2, h3, h4⟩
+
+/-- corollary: **exactly once, in order** — the delivered messages are a sub-list of the log, so their offsets are strictly
+    increasing (no message twice, none out of order) -/
+theorem C01_history_once (start : Int) (evs : List Ev) (s : St) (hl : LogOk s.log s.hw) (hs : start ≤ s.o) (ho : s.o ≤ s.hw)
+    (hd : s.delivered = between s.log start s.o) (hv : valid s evs) :
+    (evs.foldl step s).delivered.Pairwise (fun a b => a.offset < b.offset) := by
+  obtain ⟨h1, h2, _, _⟩ := C01_history start evs s hl hs ho hd hv
+  rw [h1]
+  exact List.Pairwise.sublist List.filter_sublist h2.1
+
+/-! non-vacuity: a history with an empty reply, a cut reply and an append -/
+example : valid ⟨[⟨0, [], [1]⟩, ⟨1, [], [2]⟩], 2, 0, []⟩
+    [.poll [], .poll [⟨0, [], [1]⟩], .append ⟨5, [], [3]⟩ 6, .poll [⟨1, [], [2]⟩, ⟨5, [], [3]⟩]] := by
+  simp [valid, Ev.ok, step, avail, nextOffset]
+
+/-- **one poll of the model is one `step` of the history**: for a consumer that fetches partition `p` of topic `t`, a reply
+    carrying `ms` for that partition is processed successfully, hands out exactly `ms` (nothing when it is empty) and leaves
+    the partition's fetch offset at `nextOffset` — the two components of `step (.poll ms)` -/
+theorem C01_poll_is_step {σ} (w : WC σ) (t : Bytes) (p : Int) (tr : Nat) (fs : FetchState) (corr hw : Int) (ms : List Message)
+    (n : Nat) (ht : topicRef w.cons.assignments t = some tr) (hf : assocGet w.cons.fetchOffsets (⟨tr, p⟩ : TP) = some fs)
+    (w' : WC σ) (r : PollResult)
+    (h : processResponses n [⟨corr, [⟨t, [⟨p, .ok (hw, ms)⟩]⟩]⟩] w = (w', .ok r)) :
+    iterate r.responses = (if ms.isEmpty then [] else [(t, p, ms)]) ∧
+    (assocGet w'.cons.fetchOffsets (⟨tr, p⟩ : TP)).map (·.offset) = some (nextOffset fs.offset ms) := by
+  unfold processResponses at h
+  simp only [] at h
+  have hps : preScan w.cons [⟨corr, [⟨t, [⟨p, .ok (hw, ms)⟩]⟩]⟩] = none := by
+    simp [preScan, preScanTopic, ht, hf]
+  simp only [hps, List.flatMap_cons, List.flatMap_nil, List.map_cons, List.map_nil, List.append_nil, processAll, ht] at h
+  cases hpp : processPartition w.cons.client.cfg.fetchMaxBytes n (decide (w.cons.fetchOffsets.length = 1)) w.cons tr ⟨p, .ok (hw, ms)⟩ with
+  | mk o got =>
+    rw [hpp] at h
+    cases o with
+    | ok c' =>
+      simp only [processAll] at h
+      simp at h
+      obtain ⟨rfl, rfl⟩ := h
+      refine ⟨?_, ?_⟩
+      · simp only [iterate, List.flatMap_cons, List.flatMap_nil, List.filterMap_cons, List.filterMap_nil, List.append_nil]
+        by_cases he : ms.isEmpty = true <;> simp [he]
+      · exact processPartition_offset _ _ _ w.cons c' tr ⟨p, .ok (hw, ms)⟩ hw ms fs got rfl hf hpp
+    | err e => simp at h
+    | panic s => simp at h
+    | diverge => simp at h
+
+end Kafka.Props.C01
